@@ -372,17 +372,34 @@ def hopByHopNames (h : Headers) : List Str :=
   ((vals connection h).getD []).flatMap fun v =>
     (splitComma v).filterMap fun t => if (trimBlanks t).isEmpty then none else some (tokenKey t)
 
-/-- `removeHopByHopHeaders`, the part driven by the client: every header named in `Connection` is deleted
-(the fixed list Connection/Keep-Alive/Proxy-*/Te/Trailer/Transfer-Encoding/Upgrade is not modelled: none of
-them is a header of this property). -/
-def removeHopByHop (h : Headers) : Headers := (hopByHopNames h).foldl (fun acc k => del k acc) h
+/-- `hopHeaders` of `net/http/httputil`: removed from every proxied request whatever the client says. -/
+def fixedHopByHop : List Str :=
+  ["Connection", "Proxy-Connection", "Keep-Alive", "Proxy-Authenticate", "Proxy-Authorization", "Te", "Trailer",
+   "Transfer-Encoding", "Upgrade"].map String.toList
 
-/-- What `httputil.ReverseProxy` does to the headers of this property (assumed, exercised by the
-integration streams): client-declared hop-by-hop headers are removed, **then** the peer is appended to
-X-Forwarded-For. Before the repair of D12d the first step was a hole in the property: a client that sent
-`Connection: X-Tls, X-Client-Ip` made the proxy drop the headers fabio had just set; `stepConnection` now
-removes those names from the Connection header first. -/
-def reverseProxy (ip : Str) (h : Headers) : Headers := xffAppend ip (removeHopByHop h)
+/-- `removeHopByHopHeaders`: every header named in `Connection` is deleted, then the fixed list. -/
+def removeHopByHop (h : Headers) : Headers :=
+  fixedHopByHop.foldl (fun acc k => del k acc) ((hopByHopNames h).foldl (fun acc k => del k acc) h)
+
+/-- `httpguts.HeaderValuesContainsToken(h["Connection"], tok)`: comma separated, blanks trimmed, ASCII case
+ignored. -/
+def connectionHasToken (tok : Str) (h : Headers) : Bool :=
+  ((vals connection h).getD []).any fun v => (splitComma v).any fun t => lowerL (trimBlanks t) == lowerL tok
+
+/-- `upgradeType(h)`: the protocol the client asks to switch to, when `Connection` carries the `Upgrade` token. -/
+def upgradeType (h : Headers) : Str := if connectionHasToken upgrade h then get1 upgrade h else []
+
+/-- What `httputil.ReverseProxy` does to the request headers (assumed, exercised on the real type by the
+streams `c08.serve`, `c08.proxy`, `c08.hopbyhop`): client-declared and fixed hop-by-hop headers are removed,
+`Connection: Upgrade` / `Upgrade: <type>` are put back for a protocol switch, **then** the peer is appended to
+X-Forwarded-For. (`Te: trailers` is put back too — not modelled, no header of this property; a non-printable
+upgrade type is answered with 400 — not modelled, generators are printable.) Before the repair of D12d the
+first step was a hole in the property: a client that sent `Connection: X-Tls, X-Client-Ip` made the proxy drop
+the headers fabio had just set; `stepConnection` now removes those names from the Connection header first. -/
+def reverseProxy (ip : Str) (h : Headers) : Headers :=
+  let up := upgradeType h
+  let h1 := removeHopByHop h
+  xffAppend ip (if up.isEmpty then h1 else put upgrade [up] (put connection ["Upgrade".toList] h1))
 
 /-- Last element of a comma separated list with leading blanks removed (how an upstream reads the nearest
 hop out of X-Forwarded-For). -/
